@@ -172,3 +172,66 @@ Proof. intros bs. apply decode_encode, decode_valid. Qed.
 
 Lemma valid_runes_app a b : valid_runes a -> valid_runes b -> valid_runes (a ++ b).
 Proof. intros Ha Hb. apply Forall_app. split; assumption. Qed.
+
+(* ---- rune prefixes are decodings of byte prefixes ------------------------------------------------ *)
+Lemma decode_rune_cons_some b0 r0 : decode_rune (b0 :: r0) <> None.
+Proof.
+  cbn [decode_rune]. destruct (b0 <? 128); [discriminate|].
+  destruct (lead_class b0) as [[[k lo] hi]|]; [|discriminate].
+  destruct r0 as [|b1 r1]; [discriminate|]. destruct (in_byte_range lo hi b1); [|discriminate].
+  destruct (k =? 2); [discriminate|]. destruct r1 as [|b2 r2]; [discriminate|].
+  destruct (is_cont b2); [|discriminate]. destruct (k =? 3); [discriminate|].
+  destruct r2 as [|b3 r3]; [discriminate|]. destruct (is_cont b3); discriminate.
+Qed.
+
+(* a decoding step only depends on the bytes it consumes; a failing step fails on every prefix *)
+Lemma decode_rune_prefix p q r n : decode_rune (p ++ q) = Some (r, n) ->
+  (N.to_nat n <= length p)%nat -> decode_rune p = Some (r, n).
+Proof.
+  destruct p as [|b0 p].
+  { cbn [app]. intros H Hn. destruct (decode_rune_nl _ _ _ H). cbn [length] in Hn. lia. }
+  cbn [app decode_rune].
+  destruct (b0 <? 128); [auto|].
+  destruct (lead_class b0) as [[[k lo] hi]|]; [|auto].
+  destruct p as [|b1 p]; cbn [app].
+  { destruct q as [|b1 q]; [auto|]. destruct (in_byte_range lo hi b1); [|auto].
+    destruct (k =? 2); [intros [= <- <-] Hn; cbn [length] in Hn; lia|].
+    destruct q as [|b2 q]; [auto|]. destruct (is_cont b2); [|auto].
+    destruct (k =? 3); [intros [= <- <-] Hn; cbn [length] in Hn; lia|].
+    destruct q as [|b3 q]; [auto|]. destruct (is_cont b3); [|auto].
+    intros [= <- <-] Hn; cbn [length] in Hn; lia. }
+  destruct (in_byte_range lo hi b1); [|auto].
+  destruct (k =? 2); [auto|].
+  destruct p as [|b2 p]; cbn [app].
+  { destruct q as [|b2 q]; [auto|]. destruct (is_cont b2); [|auto].
+    destruct (k =? 3); [intros [= <- <-] Hn; cbn [length] in Hn; lia|].
+    destruct q as [|b3 q]; [auto|]. destruct (is_cont b3); [|auto].
+    intros [= <- <-] Hn; cbn [length] in Hn; lia. }
+  destruct (is_cont b2); [|auto].
+  destruct (k =? 3); [auto|].
+  destruct p as [|b3 p]; cbn [app]; [|auto].
+  destruct q as [|b3 q]; [auto|]. destruct (is_cont b3); [|auto].
+  intros [= <- <-] Hn; cbn [length] in Hn; lia.
+Qed.
+
+(* every prefix of []rune(s) is []rune of a prefix of s that ends at a rune boundary *)
+Theorem decode_prefix_bytes : forall bs pre x, utf8_decode bs = pre ++ x ->
+  exists bpre bx, bs = bpre ++ bx /\ utf8_decode bpre = pre /\ utf8_decode bx = x.
+Proof.
+  intros bs pre. revert bs. induction pre as [|r pre IH]; intros bs x H.
+  - exists [], bs. split; [reflexivity|]. split; [reflexivity|exact H].
+  - destruct bs as [|b0 bs0]; [rewrite decode_nil in H; discriminate|].
+    destruct (decode_rune (b0 :: bs0)) as [[r0 n]|] eqn:E; [|exfalso; exact (decode_rune_cons_some _ _ E)].
+    rewrite (decode_cons_step _ _ _ E) in H. cbn [app] in H. injection H as <- H.
+    destruct (IH _ _ H) as (bp & bx & Hs & Hp & Hx).
+    destruct (decode_rune_nl _ _ _ E) as [Hn _].
+    assert (Hl : length (firstn (N.to_nat n) (b0 :: bs0)) = N.to_nat n) by (rewrite firstn_length; lia).
+    exists (firstn (N.to_nat n) (b0 :: bs0) ++ bp), bx. split; [|split; [|exact Hx]].
+    + rewrite <- app_assoc, <- Hs. symmetry. apply firstn_skipn.
+    + assert (E' : decode_rune (firstn (N.to_nat n) (b0 :: bs0) ++ bp) = Some (r0, n)).
+      { apply (decode_rune_prefix _ bx).
+        - rewrite <- app_assoc, <- Hs, firstn_skipn. exact E.
+        - rewrite app_length, Hl. lia. }
+      rewrite (decode_cons_step _ _ _ E'). f_equal.
+      rewrite skipn_app, Hl, Nat.sub_diag, skipn_all2 by lia. cbn [app skipn]. exact Hp.
+Qed.
